@@ -292,7 +292,7 @@ Proof.
   unfold fits.
   induction v as [|x IH|b|i z|fk fbs|s|l IH|bs0|k l IH|k l|l IH|id x IH] using Value_ind';
     intros d Hwf Hdeep f r Hf; (destruct f as [|f]; [cbn in Hf; lia|]);
-    cbn [de]; unfold de_body; maxdepth;
+    cbn [de]; unfold de_body, de_kind; maxdepth;
     (destruct (Nat.ltb_spec 32 (S d)) as [Hd|Hd]; [reflexivity|]);
     try (cbn [depth] in Hdeep; lia); cbn [ser_raw app].
   - (* Some *) change (kind_of_byte (kb KSome)) with (Some KSome). cbn iota.
